@@ -77,7 +77,6 @@ func (r *l2Run) runPath(prefix []bool, target int) (restart bool) {
 	e.ev = &eventCtx{reg: r.reg, target: target, byName: map[string]*Cell{}, mapByName: map[string]*MapVal{}, chanByName: map[string]*ChanVal{},
 		setupCells: map[int]*Cell{}, initVals: map[string]Value{}, options: map[string]bool{}, run: r}
 	defer func() {
-		delete(arrRegistry, e.ev)
 		e.ev = nil
 		e.trackCells = false
 	}()
